@@ -56,8 +56,13 @@ def mk(ctx, rx):
     return ash, p, rec
 
 
-def feed_impl(ctx, p, chunks):
-    for ch in chunks:
+RST_WIRE = [0x1A, 0xC0, 0x38, 0xBC, 0x7E]
+
+
+def feed_impl(ctx, p, chunks, host_reset_between=False):
+    for i, ch in enumerate(chunks):
+        if i and host_reset_between:
+            p.send_reset()  # a transmit-side action of the host between two reads must not disturb the receive decoder
         if not ch:
             continue
         try:
@@ -68,7 +73,7 @@ def feed_impl(ctx, p, chunks):
 
 def compare(ctx, rec, ref, what=""):
     """Event-by-event comparison of implementation and reference traces."""
-    got = rec.log
+    got = [e for e in rec.log if not (e[0] == "tx" and len(e[1]) == 5 and all(bool(a == b) for a, b in zip(list(e[1]), RST_WIRE)))]  # the host's own RST is not a receive-side event
     want = ref.events
     kinds_got = []
     for e in got:
@@ -237,7 +242,7 @@ class Mixed(Harness):
     boundary or inside the first frame: the frame contents are concrete, the *structure* is solver-decided."""
 
     name = "c02_mixed"
-    must_reach = ("up", "tx-ACK", "tx-NAK", "two-up", "frame-after-substitute")
+    must_reach = ("up", "tx-ACK", "tx-NAK", "two-up", "frame-after-substitute", "host-reset-between-reads")
     functions = Free.functions
 
     def run(self, ctx, k=5, items=ITEMS):
@@ -260,14 +265,17 @@ class Mixed(Harness):
         places = sorted(set(bounds[1:-1]) | ({2} if len(s) > 3 else set()))
         c = ctx.choice("cut", len(places) + 1)
         chunks = [s] if c == 0 else [s[:places[c - 1]], s[places[c - 1]:]]
+        hr = c != 0 and ctx.flag("host_reset_between_reads")
+        if hr:
+            ctx.label("host-reset-between-reads")
         ref = R.RefReceiver(0)
         ref.feed(s)
-        feed_impl(ctx, p, chunks)
+        feed_impl(ctx, p, chunks, host_reset_between=hr)
         if ref.dontcare:
             ctx.label("dontcare")
             ctx.observe("dontcare")
             return
-        compare(ctx, rec, ref, what="stream %s cut=%d: " % ("+".join(kinds), c))
+        compare(ctx, rec, ref, what="stream %s cut=%d%s: " % ("+".join(kinds), c, ", RST written between the reads" if hr else ""))
         if len([e for e in ref.events if e[0] == "up"]) >= 2:
             ctx.label("two-up")
         if "SUB" in kinds and "FRAME" in kinds[kinds.index("SUB"):] and kinds[0] == "FRAME":
